@@ -57,6 +57,19 @@ def run(prog, tier, seed):
     E = T(c07.effects, prog)
     if E is not None:
         res = res + T.results(T(c07.rule_pure3, prog, E))
+    # CTL* and the fair variants label a clone of the structure: a clone
+    # that shares label sets (with K or between its own states) makes CTL*
+    # disagree with CTL
+    from . import c13, c14
+    adj = T(c13.adjacency_field, prog)
+    if adj:
+        res = res + T.results(T(c14.rule_k1, prog, adj),
+                              T(c14.rule_k4, prog, adj),
+                              # the graph operations the CTL handlers compose
+                              # (a reachability that edits the set it is
+                              # given edits a memoised child set)
+                              T(c13.rule_g12, prog, adj, _n=2),
+                              T(c13.rule_g3, prog, adj))
     G = T(c09.grammars, prog)
     res = res + T.results(
         T(c12.rule_scc, prog), T(c12.rule_scc6, prog), T(c05.rule_rw3, prog),
